@@ -48,4 +48,49 @@ def PReg.contains : PReg α → Pt α → Bool
   | .empty _ _ _ i, p => withInclude i (emptyInRaw p)
   | .compound op r1 r2 i, p => withInclude i (op.apply (r1.contains p) (r2.contains p))
 
+/-- `rotate(center, angle)`: every class rotates its position(s) about `center`; classes with
+an `angle` parameter add the rotation angle; radii/sizes, the operator, meta and visual are
+copied unchanged (`self.copy(**changes)`). -/
+def PReg.rotate (o : Pt α) (d : Dir α) : PReg α → PReg α
+  | .circle r i => .circle (r.rotate o d) i
+  | .ellipse r i => .ellipse (r.rotate o d) i
+  | .rect r i => .rect (r.rotate o d) i
+  | .polygon r i => .polygon (r.rotate o d) i
+  | .circleAnnulus c r1 r2 i => .circleAnnulus (c.rotate o d) r1 r2 i
+  | .ellipseAnnulus c w1 h1 w2 h2 dd i => .ellipseAnnulus (c.rotate o d) w1 h1 w2 h2 (dd.add d) i
+  | .rectAnnulus c w1 h1 w2 h2 dd i => .rectAnnulus (c.rotate o d) w1 h1 w2 h2 (dd.add d) i
+  | .empty k a b i => .empty k (a.rotate o d) (b.rotate o d) i
+  | .compound op r1 r2 i => .compound op (r1.rotate o d) (r2.rotate o d) i
+
+/-- translation by a vector (used for the whole-pixel translation clause of C15). -/
+def Pt.shift (p t : Pt α) : Pt α := ⟨p.x + t.x, p.y + t.y⟩
+
+def PReg.shift (t : Pt α) : PReg α → PReg α
+  | .circle r i => .circle ⟨r.center.shift t, r.radius⟩ i
+  | .ellipse r i => .ellipse ⟨r.center.shift t, r.width, r.height, r.dir⟩ i
+  | .rect r i => .rect ⟨r.center.shift t, r.width, r.height, r.dir⟩ i
+  | .polygon r i => .polygon ⟨r.vertices.map (·.shift t)⟩ i
+  | .circleAnnulus c r1 r2 i => .circleAnnulus (c.shift t) r1 r2 i
+  | .ellipseAnnulus c w1 h1 w2 h2 dd i => .ellipseAnnulus (c.shift t) w1 h1 w2 h2 dd i
+  | .rectAnnulus c w1 h1 w2 h2 dd i => .rectAnnulus (c.shift t) w1 h1 w2 h2 dd i
+  | .empty k a b i => .empty k (a.shift t) (b.shift t) i
+  | .compound op r1 r2 i => .compound op (r1.shift t) (r2.shift t) i
+
+/-- twice the signed shoelace sum `Σ (x_i·y_{i+1} − y_i·x_{i+1})` over the cyclic vertex list
+(`PolygonPixelRegion.area` is `0.5·|·|` of it, computed on mean-subtracted coordinates). -/
+def shoelace2 (vs : List (Pt α)) : α :=
+  ((cyclicPairs vs).map fun e => e.2.x * e.1.y - e.2.y * e.1.x).sum
+
+/-- `area` as a pair `(coefficient of π, rational part)`; `none` = `NotImplementedError`. -/
+def PReg.area : PReg α → Option (α × α)
+  | .circle r _ => some (r.radius ^ 2, 0)
+  | .ellipse r _ => some (r.width * r.height / 4, 0)
+  | .rect r _ => some (0, r.width * r.height)
+  | .polygon r _ => some (0, |shoelace2 r.vertices| / 2)
+  | .circleAnnulus _ r1 r2 _ => some (r2 ^ 2 - r1 ^ 2, 0)
+  | .ellipseAnnulus _ w1 h1 w2 h2 _ _ => some (w2 * h2 / 4 - w1 * h1 / 4, 0)
+  | .rectAnnulus _ w1 h1 w2 h2 _ _ => some (0, w2 * h2 - w1 * h1)
+  | .empty _ _ _ _ => some (0, 0)
+  | .compound _ _ _ _ => none
+
 end RegionsVerif.Impl
